@@ -1,6 +1,7 @@
 //! Catalogue assembly.
 use crate::scen::Registry;
 
+pub mod big;
 pub mod cluster;
 pub mod core_ds;
 pub mod kmeans;
@@ -14,6 +15,7 @@ pub fn registry() -> Registry {
     linear::register(&mut r);
     core_ds::register(&mut r);
     cluster::register(&mut r);
+    big::register(&mut r);
     reduce_prep::register(&mut r);
     svm_trees::register(&mut r);
     r
